@@ -194,6 +194,7 @@ structure St (α : Type) where
   pts : List (Point α) := []
   ipts : List Nat := []
   sets : List (Mat α) := []          -- PointSetKernel inputs
+  norm : Bool := false               -- IS_NORMALIZED as cached by the constructors (KObj.normFlag)
 
 def seg {β : Type} (xs : List β) (a b : Nat) : List β := (xs.drop a).take (b - a)
 
@@ -212,7 +213,7 @@ def step (s : St α) (line : String) : St α × String :=
       | _ => (s, "bad-op")
   | "kern" :: ts =>
     match parseKern (α := α) ts with
-    | some (k, []) => ({ s with kern := some k, table := none, sets := [] }, "ok")
+    | some (k, []) => ({ s with kern := some k, table := none, sets := [], norm := (KObj.construct k).normFlag }, "ok")
     | _ => (s, "bad-op")
   | "pts" :: n :: d :: ts =>
     match n.toNat?, d.toNat? with
@@ -266,8 +267,23 @@ def step (s : St α) (line : String) : St α × String :=
           (s, showMat (k.evalBlock ex sq (seg s.pts a b) (seg s.pts c d)))
         | "sblock", [.inl a, .inl b, .inl c, .inl d] =>
           (s, showMat (k.evalBlockS ex sq (seg s.pts a b) (seg s.pts c d)))
-        | "fdist", [.inl i, .inl j] => (s, DrvScalar.render (k.featureDistanceSqr ex sq (pt i) (pt j)))
+        | "fdist", [.inl i, .inl j] =>
+          (s, DrvScalar.render ((KObj.mk k s.norm).featureDistanceSqr ex sq (pt i) (pt j)))
+        | "fdistb", [.inl a, .inl b, .inl c, .inl d] =>
+          (s, showMat ((KObj.mk k s.norm).featureDistanceBlock ex sq (seg s.pts a b) (seg s.pts c d)))
         | "dcheck", _ => (s, "ok")
+        | "unitvar", _ => (s, "ok")
+        | "gderiv", _ => (s, "ok")
+        | "flags", [] => (s, s!"norm={if s.norm then 1 else 0} np={k.numParams}")
+        -- in-place reconfiguration of the live object: the cached flag `s.norm` is NOT recomputed
+        | "setfactor", [.inl i, f] =>
+          if i < k.numScaled then
+            ({ s with kern := some ((KObj.mk k s.norm).apply ex (.setFactor i (valOf f))).expr }, "ok")
+          else (s, "bad-op")
+        | "setparams", ps =>
+          if ps.length == k.numParams then
+            ({ s with kern := some ((KObj.mk k s.norm).apply ex (.setParams (ps.map valOf))).expr }, "ok")
+          else (s, "bad-op")
         | "pderiv", .inl a :: .inl b :: .inl c :: .inl d :: cs =>
           let C := chunk (d - c) (b - a) (cs.map valOf)
           let X1 := seg s.pts a b
